@@ -38,10 +38,6 @@ type c14Expect struct {
 	Matches int // number of regular-expression configurations matching the name
 }
 
-func c14IsRegexKey(k string) bool {
-	return k == "all" || k == "all_others" || strings.HasPrefix(k, "~")
-}
-
 func c14RefRegexp(k string) *regexp.Regexp {
 	if k == "all" || k == "all_others" {
 		return regexp.MustCompile("^.*$")
